@@ -141,7 +141,7 @@ func checkStoreKeyWriters(r *Run, rule, pkg, name string, allowed []string) {
 			continue
 		}
 		n++
-		fnName := short(enclosingTop(w.fn).String())
+		fnName := short(P.liftToPinned(w.fn).String())
 		if allow[fnName] {
 			r.OK(rule, "key:"+name+"/writer:"+fnName+"/"+w.op, P.InstrPos(w.site), "vetted writer of "+name+": "+w.key.String())
 		} else {
@@ -185,7 +185,7 @@ func checkFieldWriters(r *Run, rule, pkg, typ, field string, allowed []string) {
 			if s.Field(fa.Field).Name() != field {
 				return
 			}
-			found[short(enclosingTop(fn).String())] = in
+			found[short(P.liftToPinned(fn).String())] = in
 		})
 	}
 	var names []string
